@@ -56,27 +56,41 @@ func c05Start(kind string) *rtp.Header {
 	return h
 }
 
+// c05Lists reads the map through the public accessors: the id list, Get of every listed
+// id, and Get of the probe ids that are NOT listed (expected to be empty).
+func c05Lists(h *rtp.Header) (ids []int, vals [][]int, absent []Ev) {
+	ids, vals, absent = []int{}, [][]int{}, []Ev{}
+	seen := map[uint8]bool{}
+	for _, id := range h.GetExtensionIDs() {
+		ids = append(ids, int(id))
+		vals = append(vals, ints(h.GetExtension(id)))
+		seen[id] = true
+	}
+	for _, id := range c05Probe {
+		if !seen[id] {
+			absent = append(absent, Ev{"id": int(id), "val": ints(h.GetExtension(id))})
+		}
+	}
+	return
+}
+
 func c05Obs(h *rtp.Header) Ev {
-	ids := []int{}
-	vals := [][]int{}
-	probes := []Ev{}
-	res, _ := guard(func() {
-		for _, id := range h.GetExtensionIDs() {
-			ids = append(ids, int(id))
-			vals = append(vals, ints(h.GetExtension(id)))
-		}
-		for _, id := range c05Probe {
-			probes = append(probes, Ev{"id": int(id), "val": ints(h.GetExtension(id))})
-		}
-	})
+	var ids []int
+	var vals [][]int
+	var absent []Ev
+	res, _ := guard(func() { ids, vals, absent = c05Lists(h) })
+	if ids == nil {
+		ids, vals, absent = []int{}, [][]int{}, []Ev{}
+	}
 	prof := 0
 	if h.Extension {
 		prof = int(h.ExtensionProfile)
 	}
-	return Ev{"res": res, "x": h.Extension, "profile": prof, "ids": ids, "vals": vals, "probes": probes}
+	return Ev{"res": res, "x": h.Extension, "profile": prof, "ids": ids, "vals": vals, "probes": absent}
 }
 
 func c05Wire(h *rtp.Header) Ev {
+	none := func(res, kind string) Ev { return Ev{"res": res, "errkind": kind, "ids": []int{}, "vals": [][]int{}, "probes": []Ev{}} }
 	p := &rtp.Packet{Header: h.Clone(), Payload: []byte{7, 8, 9}}
 	var buf []byte
 	var err error
@@ -86,25 +100,22 @@ func c05Wire(h *rtp.Header) Ev {
 		p2 := &rtp.Packet{Header: *h, Payload: []byte{7, 8, 9}}
 		r, _ = guard(func() { buf, err = p2.Marshal() })
 		if r == "panic" {
-			return Ev{"res": "panic", "errkind": "", "probes": []Ev{}}
+			return none("panic", "")
 		}
 	}
 	if err != nil {
-		return Ev{"res": "merr", "errkind": errKind(err), "probes": []Ev{}}
+		return none("merr", errKind(err))
 	}
 	q := &rtp.Packet{}
 	r, _ = guard(func() { err = q.Unmarshal(buf) })
 	if r == "panic" {
-		return Ev{"res": "panic", "errkind": "", "probes": []Ev{}}
+		return none("panic", "")
 	}
 	if err != nil {
-		return Ev{"res": "uerr", "errkind": "", "probes": []Ev{}}
+		return none("uerr", "")
 	}
-	probes := []Ev{}
-	for _, id := range c05Probe {
-		probes = append(probes, Ev{"id": int(id), "val": ints(q.GetExtension(id))})
-	}
-	return Ev{"res": "ok", "errkind": "", "probes": probes}
+	ids, vals, absent := c05Lists(&q.Header)
+	return Ev{"res": "ok", "errkind": "", "ids": ids, "vals": vals, "probes": absent}
 }
 
 func runC05(raw json.RawMessage, w *Writer) {
